@@ -13,12 +13,20 @@ import (
 	"bytes"
 	"encoding/json"
 	"fmt"
+	"io"
 	"math/rand"
+	"net"
 	"sort"
+	"strings"
 	"time"
+
+	"github.com/fxamacker/cbor/v2"
+	"github.com/zeebo/blake3"
 
 	"github.com/mycoria/mycoria/config"
 	"github.com/mycoria/mycoria/frame"
+	"github.com/mycoria/mycoria/m"
+	"github.com/mycoria/mycoria/peering"
 
 	"verifharness/internal/linkworld"
 	"verifharness/internal/mesh"
@@ -226,6 +234,214 @@ func (r *runner) run(cf cfgT, pl planT, byteOff, bit int) observed {
 
 func main() { vf.Main("C04", "model_checking", run) }
 
+// ---------- a participant without the universe secret (HandshakeInsider.tla)
+
+type pReq struct {
+	RouterVersion string          `cbor:"v,omitempty"`
+	Universe      string          `cbor:"u,omitempty"`
+	LiteMode      bool            `cbor:"lm,omitempty"`
+	Address       m.PublicAddress `cbor:"a,omitempty"`
+	Challenge     []byte          `cbor:"c,omitempty"`
+	LinkVersion   int             `cbor:"lv,omitempty"`
+	TunMTU        int             `cbor:"tmtu,omitempty"`
+}
+type pResp struct {
+	Challenge       []byte `cbor:"c,omitempty"`
+	UniverseAuth    []byte `cbor:"ua,omitempty"`
+	KeyExchange     []byte `cbor:"kx,omitempty"`
+	KeyExchangeType string `cbor:"kxt,omitempty"`
+	Err             string `cbor:"err,omitempty"`
+}
+type pAck struct {
+	Ack             bool   `cbor:"ack,omitempty"`
+	KeyExchange     []byte `cbor:"kx,omitempty"`
+	KeyExchangeType string `cbor:"kxt,omitempty"`
+	Err             string `cbor:"err,omitempty"`
+}
+
+func readMsg(conn net.Conn) ([]byte, error) {
+	_ = conn.SetReadDeadline(time.Now().Add(2 * time.Second))
+	var lb [2]byte
+	if _, err := io.ReadFull(conn, lb[:]); err != nil {
+		return nil, err
+	}
+	n := int(lb[0])<<8 | int(lb[1])
+	if n < 3 {
+		return nil, fmt.Errorf("length %d", n)
+	}
+	buf := make([]byte, n-2)
+	if _, err := io.ReadFull(conn, buf); err != nil {
+		return nil, err
+	}
+	return buf, nil
+}
+
+func writeMsg(conn net.Conn, f *frame.FrameV1) error {
+	raw, err := f.FrameDataWithMargins(0, 0)
+	if err != nil {
+		return err
+	}
+	out := append([]byte{byte((len(raw) + 2) >> 8), byte(len(raw) + 2)}, raw...)
+	f.ReturnToPool()
+	_ = conn.SetWriteDeadline(time.Now().Add(2 * time.Second))
+	_, err = conn.Write(out)
+	return err
+}
+
+// insider speaks the handshake itself (as the dialling side) against a real victim that has the universe secret.
+// challenge: "cV" = M copies the victim's challenge into its own request, "cM" = a fresh one.
+// proof: "none", "observed" = the proof the victim sent for M's challenge, "own" = computed with the secret.
+func insider(rng *rand.Rand, challenge, proof string, mHasSecret bool) (registered bool, detail string) {
+	w := world.NewWorld()
+	v := mkNode(w, "V", 0, "u", "s")
+	msec := ""
+	if mHasSecret {
+		msec = "s"
+	}
+	mn := mkNode(w, "M", 1, "u", msec)
+	ca, cb := net.Pipe()
+	defer ca.Close()
+	url, _ := m.ParsePeeringURL("tcp://127.0.0.1:47369")
+	type ret struct {
+		l   peering.Link
+		err error
+	}
+	done := make(chan ret, 1)
+	go func() {
+		defer func() {
+			if r := recover(); r != nil {
+				done <- ret{nil, fmt.Errorf("panic: %v", r)}
+			}
+		}()
+		l, err := v.Peer.VerifSetupLink(cb, url, false)
+		done <- ret{l, err}
+	}()
+	fail := func(step string, err error) (bool, string) {
+		_ = ca.Close()
+		select {
+		case r := <-done:
+			return r.l != nil && r.err == nil, fmt.Sprintf("%s: %v; victim: %v", step, err, r.err)
+		case <-time.After(3 * time.Second):
+			return false, step + ": victim set-up did not end"
+		}
+	}
+	// 1. the victim's request
+	raw, err := readMsg(ca)
+	if err != nil {
+		return fail("read request", err)
+	}
+	fr, err := mn.Builder.ParseFrame(raw, nil, 0)
+	if err != nil {
+		return fail("parse request", err)
+	}
+	var vreq pReq
+	if err := cbor.Unmarshal(fr.MessageData(), &vreq); err != nil {
+		return fail("decode request", err)
+	}
+	cV := append([]byte(nil), vreq.Challenge...)
+	vpub := vreq.Address
+	_ = mn.St.AddRouter(&vpub)
+	sess := mn.St.GetSession(v.ID.IP)
+	// 2. M's own request
+	myChallenge := make([]byte, len(cV))
+	rng.Read(myChallenge)
+	if challenge == "cV" {
+		myChallenge = cV
+	}
+	rq, _ := cbor.Marshal(&pReq{RouterVersion: "verif", Universe: "u", Address: mn.ID.PublicAddress, Challenge: myChallenge, LinkVersion: 1, TunMTU: 1400})
+	f1, err := mn.Builder.NewFrameV1(mn.ID.IP, m.RouterAddress, frame.RouterPing, nil, rq, nil)
+	if err != nil {
+		return fail("build request", err)
+	}
+	f1.SetTTL(0)
+	f1.SetSequenceTime(time.Now().Round(time.Millisecond).Add(-time.Millisecond))
+	if err := f1.SignRaw(mn.ID.PrivateKey); err != nil {
+		return fail("sign request", err)
+	}
+	f1.SetTTL(1)
+	if err := writeMsg(ca, f1); err != nil {
+		return fail("write request", err)
+	}
+	// 3. the victim's response to M's request: it carries the victim's proof for M's challenge
+	raw, err = readMsg(ca)
+	if err != nil {
+		return fail("read response", err)
+	}
+	fr2, err := mn.Builder.ParseFrame(raw, nil, 0)
+	if err != nil {
+		return fail("parse response", err)
+	}
+	var vresp pResp
+	if err := cbor.Unmarshal(fr2.MessageData(), &vresp); err != nil {
+		return fail("decode response", err)
+	}
+	if vresp.Err != "" {
+		return fail("victim refused the request", fmt.Errorf("%s", vresp.Err))
+	}
+	// 4. M's response to the victim's request
+	kx, kxt, err := sess.Encryption().InitKeyClientStart()
+	if err != nil {
+		return fail("kx", err)
+	}
+	resp := pResp{Challenge: cV, KeyExchange: kx, KeyExchangeType: kxt}
+	switch proof {
+	case "observed":
+		resp.UniverseAuth = vresp.UniverseAuth
+	case "own":
+		d := append([]byte("u"), cV...)
+		d = append(d, []byte("s")...)
+		d = append(d, v.ID.IP.AsSlice()...)
+		d = append(d, mn.ID.IP.AsSlice()...)
+		sum := blake3.Sum256(d)
+		resp.UniverseAuth = sum[:]
+	}
+	rb, _ := cbor.Marshal(&resp)
+	f2, err := mn.Builder.NewFrameV1(mn.ID.IP, v.ID.IP, frame.RouterPing, nil, rb, nil)
+	if err != nil {
+		return fail("build response", err)
+	}
+	if err := f2.Seal(sess); err != nil {
+		return fail("seal response", err)
+	}
+	if err := writeMsg(ca, f2); err != nil {
+		return fail("write response", err)
+	}
+	// 5. the victim's ack, then M's ack
+	raw, err = readMsg(ca)
+	if err != nil {
+		return fail("read ack", err)
+	}
+	fr3, err := mn.Builder.ParseFrame(raw, nil, 0)
+	if err == nil {
+		var vack pAck
+		if cbor.Unmarshal(fr3.MessageData(), &vack) == nil && vack.Err != "" {
+			return fail("victim refused the response", fmt.Errorf("%s", vack.Err))
+		}
+	}
+	ab, _ := cbor.Marshal(&pAck{Ack: true})
+	f3, err := mn.Builder.NewFrameV1(mn.ID.IP, v.ID.IP, frame.RouterPing, nil, ab, nil)
+	if err != nil {
+		return fail("build ack", err)
+	}
+	if err := f3.Seal(sess); err != nil {
+		return fail("seal ack", err)
+	}
+	if err := writeMsg(ca, f3); err != nil {
+		return fail("write ack", err)
+	}
+	select {
+	case r := <-done:
+		registered = r.l != nil && r.err == nil && v.Peer.GetLink(mn.ID.IP) != nil
+		detail = fmt.Sprint(r.err)
+		if r.l != nil {
+			r.l.Close(nil)
+		}
+	case <-time.After(3 * time.Second):
+		detail = "victim set-up did not end"
+	}
+	return registered, detail
+}
+
 func run(c *vf.Ctx) {
 	c.Rule("M: TLC on Handshake: 16 universe/secret configurations without wire fault and, for the admissible configurations (no secret / same secret), one fault (drop, corrupt, truncate, duplicate, swap, replay-from-earlier-connection with and without lost receiver state, reflect) at each of the 3 message positions of both directions, every interleaving of the two directions. R: each (configuration, plan) run as a REAL link set-up of two real routers through a proxy that applies the plan to the real bytes (quick: one random authenticated byte per corrupt plan; thorough: every authenticated byte of each of the six messages, 2 bits). T: outcomes judged by TLC. distinct = distinct (configuration, plan, byte)")
 	c.Assume("signature / hash security symbolic in the model, real in the replay", "a set-up in which a message never arrives is ended by closing the connection after 250 ms of silence")
@@ -309,6 +525,56 @@ func run(c *vf.Ctx) {
 		c.Logf("R sweep: %d set-ups", n)
 	}
 
+	// ---- a participant without the secret (HandshakeInsider): model, negative control, real victim
+	for _, hc := range []struct {
+		cfg  string
+		want string
+	}{{"HandshakeInsider_directed_FALSE.cfg", ""}, {"HandshakeInsider_directed_TRUE.cfg", ""}, {"HandshakeInsider_sorted_FALSE.cfg", "AuthOnRegister"}} {
+		hres, err := c.TLC("HandshakeInsider", hc.cfg, vf.TLCOpts{Workers: 1})
+		if err != nil {
+			c.Fatal("M insider %s: %v", hc.cfg, err)
+		}
+		c.AddModel(hres.Distinct, hres.Generated)
+		if hres.Violated != hc.want {
+			c.Broken("M insider %s: expected violated=%q, TLC says %q", hc.cfg, hc.want, hres.Violated)
+		}
+		if hc.want != "" {
+			continue
+		}
+		// every behaviour of the model (request challenge x response proof) against a real victim
+		type ia struct {
+			Name      string `json:"name"`
+			Challenge string `json:"challenge"`
+			Proof     string `json:"proof"`
+		}
+		reqs := map[string]bool{}
+		proofs := map[string]bool{}
+		for _, e := range hres.Edges {
+			var a ia
+			if json.Unmarshal(e.Act, &a) != nil {
+				continue
+			}
+			if a.Name == "mrequest" {
+				reqs[a.Challenge] = true
+			}
+			if a.Name == "mresponse" {
+				proofs[a.Proof] = true
+			}
+		}
+		has := strings.Contains(hc.cfg, "TRUE")
+		for ch := range reqs {
+			for pr := range proofs {
+				for rep := 0; rep < c.Pick(2, 20); rep++ {
+					reg, detail := insider(r.rng, ch, pr, has)
+					c.Eval(1)
+					c.Distinct(fmt.Sprintf("insider|%s|%s|%v|%d", ch, pr, has, rep))
+					events = append(events, map[string]any{"ev": "insider", "challenge": ch, "proof": pr, "mhassecret": has, "registered": reg, "detail": detail})
+				}
+			}
+		}
+	}
+	c.Logf("insider behaviours executed; %d events", len(events))
+
 	for len(events) > 0 {
 		rejectAt, inv, tres, err := c.TraceCheck("Handshake_Trace", "Handshake_Trace.cfg", events, vf.TLCOpts{Timeout: 20 * time.Minute})
 		if err != nil {
@@ -322,6 +588,13 @@ func run(c *vf.Ctx) {
 		ev := events[rejectAt-1].(map[string]any)
 		what := "the outcome violates the handshake rules"
 		key := vf.Key(ev["op"], ev["dir"], ev["idx"])
+		if ev["ev"] == "insider" {
+			key = vf.Key("insider", ev["challenge"], ev["proof"], ev["mhassecret"])
+			what = "a router that speaks the handshake itself without knowing the universe secret was registered (or one that knows it was refused)"
+			c.Violation(key, fmt.Sprintf("%s: %v", what, ev), ev, nil)
+			events = events[rejectAt:]
+			continue
+		}
 		switch {
 		case ev["op"] != "none" && (ev["regA"] == true || ev["regB"] == true):
 			what = "a router registered the link although the message it received was altered / replayed / reflected / missing"
